@@ -13,6 +13,9 @@
 (*   bad     unknown filter; more arguments than the filter takes          *)
 (*   lit     literals denote themselves                                    *)
 (*   space   the same tags and objects under different whitespace         *)
+(*   rng     ranges (lo..hi), ascending, single, empty and descending,    *)
+(*           with literal and variable endpoints, as filter receivers and *)
+(*           arguments, assigned and looked into                           *)
 (* TLC checks the lookup laws on the reference and emits every case.       *)
 (***************************************************************************)
 EXTENDS LqRender, Json, TLC
@@ -97,6 +100,36 @@ LitU == << IntV(0), IntV(7), IntV(0 - 3), IntV(12345), Flt(5, 2), Flt(0 - 3, 4),
            S(<<105, 116, 34, 115>>), S(<<105, 116, 39, 115>>), Bool(TRUE), Bool(FALSE), Nil, S(<<195, 169>>), S(<<110, 105, 108>>),
            S(<<49>>), S(<<97, 124, 98>>), S(<<97, 58, 32, 98, 44, 99>>) >>
 
+\* ------------------------------------------------------------------- rng
+Zz == <<122>>
+Lo == <<108, 111>>
+Hi == <<104, 105>>
+Comma == Lit(S(<<44>>))
+RngE(x) == [t |-> "range", a |-> IF x.asvar THEN Var(Lo) ELSE Lit(IntV(x.lo)), b |-> IF x.asvar THEN Var(Hi) ELSE Lit(IntV(x.hi))]
+AssignR(x) == [t |-> "assign", name |-> Zz, e |-> RngE(x)]
+RngUses(x) == <<
+  <<Ob(Fl(RngE(x), "join", <<Comma>>))>>,
+  <<T(<<91>>), Ob(Fl(RngE(x), "first", <<>>)), T(<<93>>)>>,
+  <<T(<<91>>), Ob(Fl(RngE(x), "last", <<>>)), T(<<93>>)>>,
+  <<Ob(Fl(Fl(RngE(x), "reverse", <<>>), "join", <<Comma>>))>>,
+  <<Ob(Fl(RngE(x), "size", <<>>))>>,
+  <<Ob(Fl(Fl(Var(A), "concat", <<RngE(x)>>), "join", <<Comma>>))>>,
+  <<Ob(Fl(Fl(RngE(x), "sort", <<>>), "join", <<Comma>>))>>,
+  <<Ob(Fl(Fl(RngE(x), "uniq", <<>>), "join", <<Comma>>))>>,
+  <<Ob(Fl(Fl(RngE(x), "compact", <<>>), "join", <<Comma>>))>>,
+  <<Ob(Fl(Fl(RngE(x), "concat", <<Var(A)>>), "join", <<Comma>>))>>,
+  <<AssignR(x), Ob(Fl(Var(Zz), "join", <<Comma>>))>>,
+  <<AssignR(x), T(<<91>>), Ob(P(Var(Zz), B_size)), T(<<93>>)>>,
+  <<AssignR(x), T(<<91>>), Ob(P(Var(Zz), B_first)), T(<<124>>), Ob(P(Var(Zz), B_last)), T(<<93>>)>>,
+  <<AssignR(x), T(<<91>>), Ob(Ix(Var(Zz), Lit(IntV(0)))), T(<<124>>), Ob(Ix(Var(Zz), Lit(IntV(0 - 1)))), T(<<93>>)>>,
+  <<AssignR(x), [t |-> "if", branches |-> <<[c |-> [t |-> "cmp", op |-> "contains", a |-> Var(Zz), b |-> Lit(IntV(1))], body |-> <<T(<<121>>)>>],
+                                             [c |-> [t |-> "else"], body |-> <<T(<<110>>)>>]>>]>>,
+  <<AssignR(x), [t |-> "for", tag |-> "for", var |-> I, coll |-> Var(Zz), body |-> <<Ob(Var(I)), T(<<32>>)>>, else |-> <<T(<<101>>)>>]>>,
+  <<Ob(Fl(Fl(RngE(x), "map", <<Lit(S(Bb))>>), "size", <<>>))>>,
+  <<Ob(Fl(RngE(x), "slice", <<Lit(IntV(0)), Lit(IntV(2))>>))>>
+>>
+NRngUses == 18
+
 \* ----------------------------------------------------------------- space
 \* fixed programs whose meaning must not depend on the whitespace inside tags
 SpaceProgs == <<
@@ -122,6 +155,7 @@ Cases ==
   \cup [g : {"bad"}, f : 1..Len(AllFilters), kind : {"toomany", "toomany-nil", "toomany-undef"}]
   \cup [g : {"bad"}, f : {1}, kind : {"unknown", "unknown-args", "unknown-mid"}]
   \cup [g : {"lit"}, v : 1..Len(LitU), form : {"print", "eq", "assign"}]
+  \cup [g : {"rng"}, lo : (0 - 1)..3, hi : (0 - 2)..4, use : 1..NRngUses, asvar : BOOLEAN]
   \cup [g : {"space"}, q : 1..Len(SpaceProgs), sp : 1..Len(Spacings), tight : BOOLEAN]
 
 ManyArgs(f) == [k \in 1..(DocArgs(f) + 2) |-> Lit(IntV(1))]
@@ -142,6 +176,7 @@ ProgOf(x) ==
          (CASE x.form = "print" -> <<T(<<91>>), Ob(Lit(LitU[x.v])), T(<<93>>)>>
             [] x.form = "eq" -> <<Ob([t |-> "cmp", op |-> "==", a |-> Lit(LitU[x.v]), b |-> Var(A)])>>
             [] x.form = "assign" -> <<[t |-> "assign", name |-> <<122>>, e |-> Lit(LitU[x.v])], T(<<91>>), Ob(Var(<<122>>)), T(<<93>>)>>)
+    [] x.g = "rng" -> RngUses(x)[x.use]
     [] x.g = "space" -> SpaceProgs[x.q]
 
 EnvOf2(x) ==
@@ -150,6 +185,7 @@ EnvOf2(x) ==
     [] x.g = "pipe" -> PipeEnv(x.r)
     [] x.g = "bad" -> << <<A, S(<<97>>)>> >>
     [] x.g = "lit" -> << <<A, LitU[x.v]>> >>
+    [] x.g = "rng" -> << <<A, Arr(<<IntV(7)>>)>>, <<Lo, IntV(x.lo)>>, <<Hi, IntV(x.hi)>> >>
     [] x.g = "space" -> PipeEnv(1)
 CxOf(x) == IF x.g = "look" /\ x.strict THEN [Cx0 EXCEPT !.strict = TRUE] ELSE Cx0
 Res(x) == Render(CxOf(x), ProgOf(x), EnvOf(EnvOf2(x)))
@@ -188,6 +224,14 @@ PipelineIsSequential ==
     LET d == Render(Cx0, <<Ob(Chain(Var(A), c.ss))>>, EnvOf(EnvOf2(c)))
         s == Render(Cx0, Decomposed(c.ss), EnvOf(EnvOf2(c)))
     IN  d.status = s.status /\ (d.status = "ok" => d.out = s.out)
+\* a range whose end lies below its start is empty, wherever it is used; no use of a range fails
+RECURSIVE JoinInts(_, _)
+JoinInts(a, b) == IF b < a THEN <<>> ELSE IntText(a) \o (IF a = b THEN <<>> ELSE <<44>> \o JoinInts(a + 1, b))
+RangeLaw ==
+  c.g = "rng" =>
+    /\ Res(c).status \in {"ok", "unspec"}
+    /\ c.use \in {1, 7, 8, 9, 11} => (Res(c).status = "ok" /\ Res(c).out = JoinInts(c.lo, c.hi))
+    /\ (c.use = 6 /\ c.hi < c.lo) => Res(c).out = <<55>>
 BadIsError == c.g = "bad" => Res(c).status = "error"
 SpacingIrrelevant == TRUE     \* the reference works on trees: spelling cannot matter to it by construction
 
@@ -197,6 +241,7 @@ IdOf(x) ==
     [] x.g = "pipe" -> "pipe-" \o ToString(x.r) \o "-" \o ToString(x.ss) \o "-" \o ToString(x.direct)
     [] x.g = "bad" -> "bad-" \o ToString(x.f) \o "-" \o x.kind
     [] x.g = "lit" -> "lit-" \o ToString(x.v) \o "-" \o x.form
+    [] x.g = "rng" -> "rng-" \o ToString(x.lo) \o "-" \o ToString(x.hi) \o "-" \o ToString(x.use) \o "-" \o ToString(x.asvar)
     [] x.g = "space" -> "space-" \o ToString(x.q) \o "-" \o ToString(x.sp) \o "-" \o ToString(x.tight)
 EmitCase == PrintT(ToJson(
   [id |-> IdOf(c), kind |-> "render", prog |-> ProgOf(c), env |-> EnvOf2(c), strict |-> (c.g = "look" /\ c.strict), g |-> c.g]
